@@ -4,6 +4,7 @@ import (
 	"fmt"
 	"go/token"
 	"go/types"
+	"strings"
 
 	"golang.org/x/tools/go/ssa"
 )
@@ -468,6 +469,51 @@ func checkHeapInterface(p *Prog, r *Report) {
 		}
 	}
 	r.Check(okPop, "R-HEAP.pop", "(*"+T+").Pop: item.index = -1 and drops the last element", p.pos(pop.Pos()), "shape confirmed", "Pop does not mark the removed item (index = -1)", true)
+	// container/heap moves the minimum to position n-1 before calling Pop: Pop must return that element and cut it off
+	lenMinus1 := func(v ssa.Value) bool {
+		b, ok := v.(*ssa.BinOp)
+		if !ok || b.Op != token.SUB {
+			return false
+		}
+		if c, ok := constInt(b.Y); !ok || c != 1 {
+			return false
+		}
+		c, ok := b.X.(*ssa.Call)
+		if !ok {
+			return false
+		}
+		bi, ok := c.Call.Value.(*ssa.Builtin)
+		return ok && bi.Name() == "len"
+	}
+	okLast, okCut := false, false
+	eachInstr(pop, func(in ssa.Instruction) {
+		switch x := in.(type) {
+		case *ssa.Return:
+			if len(x.Results) == 1 {
+				v := x.Results[0]
+				if mi, ok := v.(*ssa.MakeInterface); ok {
+					v = mi.X
+				}
+				if u, ok := v.(*ssa.UnOp); ok && u.Op == token.MUL {
+					if ia, ok := u.X.(*ssa.IndexAddr); ok && lenMinus1(ia.Index) {
+						okLast = true
+					}
+				}
+			}
+		case *ssa.Store:
+			if x.Addr == ssa.Value(pop.Params[0]) {
+				if sl, ok := x.Val.(*ssa.Slice); ok && lenMinus1(sl.High) {
+					z, isZ := int64(0), sl.Low == nil
+					if sl.Low != nil {
+						z, isZ = constInt(sl.Low)
+					}
+					okCut = isZ && z == 0
+				}
+			}
+		}
+	})
+	r.Check(okLast && okCut, "R-HEAP.pop", "(*"+T+").Pop: returns (*pq)[n-1] and keeps (*pq)[0:n-1]", p.pos(pop.Pos()), "shape confirmed",
+		"container/heap has moved the root to the last position when it calls Pop: returning or cutting any other element hands out a flow that is not the earliest and loses another", true)
 	// Less: minExpireTime(i).Before(minExpireTime(j))
 	okLess := false
 	eachInstr(less, func(in ssa.Instruction) {
@@ -719,6 +765,42 @@ func checkDeadlineTests(p *Prog, r *Report, delFn *ssa.Function) {
 			r.Check(how != "", "R-GATE.delete-test", fmt.Sprintf("%s: deletion of the popped flow (%s)", fnKey(f), guardSummary(in)), p.instrPos(in), how,
 				"a flow is removed although neither its inactive deadline has passed nor its correlation retries are exhausted (active expiry must keep the flow)", true)
 		})
+		// every deadline written anywhere in the package is now + the timeout of the same kind (or a parameter handed through)
+		n := 0
+		for _, g := range p.RepoFns {
+			if !keyInPkg(fnKey(g), "pkg/intermediate") {
+				continue
+			}
+			eachInstr(g, func(in ssa.Instruction) {
+				s, ok := in.(*ssa.Store)
+				if !ok {
+					return
+				}
+				tn, fn, _, ok := fieldOf(s.Addr)
+				if !ok || tn != "pkg/intermediate.ItemToExpire" || (fn != "activeExpireTime" && fn != "inactiveExpireTime") {
+					return
+				}
+				n++
+				want := map[string]string{"activeExpireTime": "activeExpiryTimeout", "inactiveExpireTime": "inactiveExpiryTimeout"}[fn]
+				good := false
+				if _, isParam := s.Val.(*ssa.Parameter); isParam {
+					good = true
+				}
+				if c, ok := s.Val.(*ssa.Call); ok && calleeName(&c.Call) == "(time.Time).Add" {
+					if t2, f2, _, ok := loadedField(c.Call.Args[1]); ok && t2 == "pkg/intermediate.AggregationProcess" && f2 == want {
+						switch b := c.Call.Args[0].(type) {
+						case *ssa.Call: // time.Now() or an injected clock's Now()
+							good = strings.HasSuffix(calleeName(&b.Call), "Now") || (b.Call.IsInvoke() && b.Call.Method.Name() == "Now")
+						case *ssa.Parameter:
+							good = typeName(b.Type()) == "time.Time"
+						}
+					}
+				}
+				r.Check(good, "R-VALUE.deadline", fmt.Sprintf("%s: store #%d of %s", fnKey(g), n, fn), p.instrPos(in), "time.Now().Add("+want+") or a parameter",
+					"a deadline is written with something other than now + the configured timeout of its own kind: flows expire on the wrong schedule", true)
+			})
+		}
+		r.Check(n >= 5, "R-VALUE.deadline", "deadline stores found in pkg/intermediate", "pkg/intermediate", "at least the five confirmed by reading", fmt.Sprintf("only %d stores found: the rule went blind", n), true)
 		// re-arm before re-push on the ready path: store activeExpireTime = now.Add(activeExpiryTimeout) dominates a Push
 		rearm := false
 		eachInstr(f, func(in ssa.Instruction) {
